@@ -1968,6 +1968,11 @@ def _call_named_trait_method(I, st, t, bb, f, vals):
     if len(parts) < 2:
         return None
     trait_path, meth = "::".join(parts[:-1]), parts[-1]
+    # a bit operator of a primitive integer passed by name (`zip_words(rhs, u64::bitand)`): the operator itself
+    if len(f) > 3 and isinstance(f[3], tuple) and f[3] and str(f[3][0]) in ("u8", "u16", "u32", "u64", "u128", "usize", "i8", "i16", "i32", "i64", "i128", "isize") \
+            and parts[-2] in ("BitAnd", "BitOr", "BitXor") and meth == parts[-2].lower() and len(vals) == 2 and all(str(x) == str(f[3][0]) for x in f[3]):
+        ns = st.fork()
+        return I._finish_comb(t, bb, [(ns, mk_bin(parts[-2], vals[0], vals[1]))])
     self_ty = None
     m_ = _re.match(r"^([\w:<> ,&']+?)\(", str(f[3])) if len(f) > 3 else None
     if m_:
